@@ -1553,6 +1553,34 @@ class FuncVerifier:
         st.dead = True
         st.pc = z3.BoolVal(False)
 
+    def narrow_isinstance(self, test, st):
+        """flow typing for the true branch of `if isinstance(x, C) [and ...]`: the local x, whose static type is Any or a
+        superclass, gets the static type C there (the path condition already carries the class fact)"""
+        tests = test.values if isinstance(test, ast.BoolOp) and isinstance(test.op, ast.And) else [test]
+        for t in tests:
+            if not (isinstance(t, ast.Call) and isinstance(t.func, ast.Name) and t.func.id == 'isinstance'
+                    and len(t.args) == 2 and isinstance(t.args[0], ast.Name) and t.args[0].id in st.env):
+                continue
+            cn = t.args[1]
+            if isinstance(cn, ast.Attribute) and isinstance(cn.value, ast.Name):
+                alias = cn.value.id
+                mod = self.module.imports.get(alias) if (self.module is not None and alias in self.module.imports) else None
+                name = (mod.split('.')[-1] if mod else alias) + '.' + cn.attr
+            elif isinstance(cn, ast.Name):
+                name = cn.id
+            else:
+                continue
+            try:
+                key = self.class_key(name)
+            except Exception:
+                continue
+            if key not in self.E.fe.classes and key not in self.E.sc.classdecl:
+                continue
+            cur = st.env[t.args[0].id]
+            k = cur.ty.strip_opt().kind
+            if k == 'any' or (k == 'obj' and cur.ty.strip_opt().name != key):
+                st.env[t.args[0].id] = SV(cur.term, T.Obj(key))
+
     def ex_If(self, s, st):
         if self.in_slice():
             from .slicing import slice_if
@@ -1560,6 +1588,7 @@ class FuncVerifier:
         c = self.truthy(self.ev(s.test, st, False))
         s1 = st.copy(c)
         s2 = st.copy(simp_not(c))
+        self.narrow_isinstance(s.test, s1)
         self.exec_block(s.body, s1)
         self.exec_block(s.orelse, s2)
         self.merge_into(st, [s1, s2], conds=[c, simp_not(c)])
